@@ -141,6 +141,8 @@ def monitor(c):
 
 
 def run(ctx, out):
+    import families as _fam2
+    out.evaluations += _fam2.scalar_subclass_family(out, PROP)
     import families as _fam
     out.evaluations += _fam.construction_paths_family(out, PROP)
     import families, random as _random
